@@ -671,3 +671,132 @@ def _inside_closure(n):
 
 def precedes_in_block(a, b):
     return a.order < b.order
+
+
+# ---------------------------------------------------------------------------------------------------------------------
+# C15-W2: the hand-off between two windows.  The last run of the previous window is held back in `self.last_val` and put in front of the runs of
+# the next window; that step (with the local `insert_into_queue` closure and `merge_into`) is run on small run lists and must leave the value of
+# every base as it was.
+
+_HANDOFF_CASES = [
+    ((80, 90, 2.0), [(100, 110, 2.0), (110, 120, 3.0)]),     # a gap before the window, same value on both sides
+    ((90, 100, 2.0), [(100, 110, 2.0)]),                     # adjacent, same value (may be joined or not)
+    ((90, 100, 1.0), [(100, 110, 2.0)]),                     # adjacent, different value
+    (None, [(100, 110, 2.0)]),
+    ((90, 100, 2.0), []),
+    ((50, 60, 3.0), [(105, 106, 3.0), (106, 130, 1.0)]),
+    ((10, 20, 2.0), [(100, 101, 2.0)]),                      # equal runs several windows apart
+]
+
+
+def ob_window_handoff(ctx, res):
+    """C15-W2"""
+    from ..rules.interp import Interp, NotPure, _Return
+    fn = ctx.ast.fn(ME, "next", impl="ValueIter")
+    lps = [n for n in walk_no_nested_fn(fn.body) if n.k == "loop"]
+    st = lps[0]["body"]["stmts"] if lps and lps[0]["body"].k == "block" else []
+    i1 = [i for i, x in enumerate(st) if re.search(r"self\.last_val = Some\(", up(x))]
+    i0 = [i for i, x in enumerate(st) if "self.last_val.take()" in up(x) or "self.last_val" in up(x)]
+    cl = [i for i, x in enumerate(st) if x.k == "let" and x.get("init") is not None and strip(x["init"]).k == "closure"]
+    if not i1 or not i0:
+        res.undecided("handoff/site", fn, "the statements that put the held-back run in front of the next window's runs were not located")
+        return
+    lo = min([i for i in cl if i < i1[0]] + [i0[0]])
+    block = st[lo:i1[0]]
+    names = set(re.findall(r"\b[a-z_]\w*\b", " ".join(up(x) for x in block)))
+    qname = "next_sections" if "next_sections" in names else None
+    if qname is None:
+        res.undecided("handoff/site", fn, "the run list of the next window (`next_sections`) is not named in the hand-off statements")
+        return
+
+    def rec(s, e, v):
+        return {"__ref": True, "__type": "Value", "start": s, "end": e, "value": v}
+    n_ok = 0
+    for last, secs in _HANDOFF_CASES:
+        def method(m, recv, args):
+            if isinstance(recv, list):
+                if m == "is_empty" and not args:
+                    return not recv
+                if m == "len" and not args:
+                    return len(recv)
+                if m in ("last", "last_mut") and not args:
+                    return ("some", recv[-1]) if recv else None
+                if m in ("first", "first_mut") and not args:
+                    return ("some", recv[0]) if recv else None
+                if m == "push" and len(args) == 1:
+                    recv.append(args[0])
+                    return None
+                if m == "insert" and len(args) == 2 and isinstance(args[0], int) and 0 <= args[0] <= len(recv):
+                    recv.insert(args[0], args[1])
+                    return None
+                if m == "remove" and len(args) == 1 and isinstance(args[0], int) and 0 <= args[0] < len(recv):
+                    return recv.pop(args[0])
+                if m == "pop" and not args:
+                    return ("some", recv.pop()) if recv else None
+                if m in ("iter_mut", "iter", "into_iter") and not args:
+                    return recv
+                if m == "enumerate" and not args:
+                    return [(i, x) for i, x in enumerate(recv)]
+                if m in ("get", "get_mut") and len(args) == 1 and isinstance(args[0], int):
+                    return ("some", recv[args[0]]) if 0 <= args[0] < len(recv) else None
+            raise NotPure("method %s on %s" % (m, type(recv).__name__))
+
+        def call(p_, args):
+            if p_.split("::")[-2:] == ["mem", "replace"] and len(args) == 2 and isinstance(args[0], dict) and isinstance(args[1], dict):
+                old = dict(args[0])
+                args[0].clear()
+                args[0].update(args[1])
+                args[0]["__ref"] = True
+                old["__ref"] = True
+                return old
+            return NotImplemented
+
+        def binop(op, a, b):
+            if isinstance(a, (int, float)) and isinstance(b, (int, float)):
+                if op == "+":
+                    return a + b
+                if op == "-":
+                    return a - b
+                if op == "*":
+                    return a * b
+            raise NotPure("arithmetic")
+
+        def macro(n_, args):
+            raise NotPure("macro " + n_["path"])
+        it = Interp(ctx.ast, ME, extern={"None": None, "method": method, "call": call, "binop": binop, "floats": True, "macro": macro})
+        env = {"self": {"__ref": True, "last_val": None if last is None else ("some", rec(*last))}, qname: [rec(*x) for x in secs], "current_start": 100,
+               "all_none": False, "max_sections": len(secs)}
+        try:
+            it.run_stmts(block, env, 0)
+        except (NotPure, _Return) as e:
+            res.undecided("handoff/eval", block[0], "hand-off statements outside the evaluated fragment (%s)" % str(e)[:80])
+            return
+        except Exception as e:
+            res.undecided("handoff/eval", block[0], "hand-off statements not evaluated (%s: %s)" % (type(e).__name__, str(e)[:60]))
+            return
+        after = [(r["start"], r["end"], r["value"]) for r in env[qname]]
+        lv = env["self"].get("last_val")
+        if isinstance(lv, tuple) and lv and lv[0] == "some" and isinstance(lv[1], dict):
+            after.append((lv[1]["start"], lv[1]["end"], lv[1]["value"]))
+        want = {}
+        for s_, e_, v_ in ([last] if last else []) + list(secs):
+            for p_ in range(s_, e_):
+                want[p_] = want.get(p_, 0.0) + v_
+        got = {}
+        for s_, e_, v_ in after:
+            for p_ in range(s_, e_):
+                if p_ in got:
+                    res.fail("handoff/overlap", block[0], "held-back run %s in front of %s: the resulting runs %s overlap at base %d" % (last, secs, after, p_))
+                    return
+                got[p_] = v_
+        if got != want:
+            d = sorted(set(got.items()) ^ set(want.items()))[:3]
+            res.fail("handoff/values", block[0], "held-back run %s put in front of the next window's runs %s gives %s: the value of some base changed (%s) - a run must not be "
+                                                 "stretched over bases no input covers, nor dropped" % (last, secs, after, d))
+            return
+        if sorted(after) != after and not (isinstance(lv, tuple) and lv):
+            res.fail("handoff/order", block[0], "held-back run %s in front of %s: the resulting runs %s are not in position order" % (last, secs, after))
+            return
+        n_ok += 1
+    res.ok(block[0], "window hand-off evaluated on %d run lists (gap before the window, adjacent equal / different values, nothing held, empty window, windows apart): "
+                     "the held-back run is placed in front and the value of every base is unchanged" % n_ok)
